@@ -1,3 +1,641 @@
-(* Property monitors over observed world histories (see the per-property sections below). *)
+(* Property monitors over observed world histories: the boolean form of the
+   properties C01, C03, C04, C06, C08, C10, C11, C15, C16, C17 (and the
+   response-level clauses of C07, C09, C18).  A monitor reads what a request
+   carried (its cookies decoded with the deployment key), the provider's answer
+   and the response some implementation gave; it never runs the ladder.  The
+   theorems prove that Model/Middleware.serve satisfies them for every input;
+   the correspondence check applies them to the Go implementation's responses. *)
 From VF Require Import Base.Prelude Model.Cache Model.Session Model.Middleware Corr.WorldCorr.
 Open Scope N_scope.
+
+(* ------------------------------------------------------------------ URL classification (C15) *)
+
+(* What a browser does with a Location that has no scheme: leading C0 control
+   and space characters are stripped, TAB / CR / LF are removed everywhere, and
+   a backslash counts as a slash.  The target stays on the current origin iff
+   what remains starts with exactly one slash. *)
+Definition is_tab_nl (c : N) : bool := N.eqb c 9 || N.eqb c 10 || N.eqb c 13.
+Definition not_tab_nl (c : N) : bool := negb (is_tab_nl c).
+
+Fixpoint strip_leading (s : list N) : list N :=
+  match s with
+  | c :: r => if N.leb c 32 then strip_leading r else s
+  | [] => []
+  end.
+
+Definition is_slash (c : N) : bool := N.eqb c 47 || N.eqb c 92.
+
+Definition same_origin_path (s : list N) : bool :=
+  match filter not_tab_nl (strip_leading s) with
+  | c :: [] => N.eqb c 47
+  | c :: d :: _ => N.eqb c 47 && negb (is_slash d)
+  | [] => false
+  end.
+
+Section Monitors.
+  Variable E : env.
+  Variable cfg : config.
+  Variable auth_url : istr.        (* discovered authorization endpoint *)
+  Variable end_session : istr.     (* discovered end-session endpoint (0: none) *)
+
+  Definition NCm := nchunks E.
+
+  (* ---------------------------------------------------------------- reading a request *)
+
+  Definition carried (now : time) (rq : request) : sdata := load (c_key cfg) now (q_jar rq).
+
+  Definition is_callback (rq : request) : bool := N.eqb (q_path rq) (c_callback cfg).
+  Definition is_logout (rq : request) : bool := N.eqb (q_path rq) (c_logout cfg).
+  Definition is_excluded (rq : request) : bool := excluded E cfg (q_path rq).
+  Definition gated (rq : request) : bool :=
+    negb (is_excluded rq) && negb (is_callback rq) && negb (is_logout rq).
+
+  Definition forwarded (r : response) : bool := match r_fwd r with Some _ => true | None => false end.
+
+  Definition session_token (now : time) (rq : request) : tval := get_access NCm (carried now rq).
+  Definition session_refresh (now : time) (rq : request) : tval := get_refresh NCm (carried now rq).
+
+  (* the request carries cookies of this deployment holding a verified, unexpired ID token *)
+  Definition carries_valid_session (now : time) (rq : request) : bool :=
+    authenticated now (carried now rq) &&
+    match session_token now rq with
+    | TTok t => accept_at now (tok E t)
+    | _ => false
+    end.
+
+  (* this step replaced the token by a successful refresh with the carried refresh token *)
+  Definition refreshed_ok (now : time) (rq : request) (ans : option answer) (r : response) : bool :=
+    match ans, r_calls r with
+    | Some (AOk id _), [PRefresh rt] =>
+        negb (N.eqb id 0) && accept_at now (tok E id)
+        && tval_eqb rt (session_refresh now rq) && negb (tval_eqb rt TEmpty)
+    | _, _ => false
+    end.
+
+  Definition is_auth_redirect (r : response) : bool :=
+    N.eqb (r_status r) 302 &&
+    match r_loc r with Some (LAuth b _ _ _ _ _) => N.eqb b auth_url | _ => false end.
+
+  (* what the response's cookies store as ID token / refresh token *)
+  Definition payload_of (n : cname) (l : list setcookie) : option payload :=
+    match filter (fun sc => cname_eqb (fst (fst sc)) n && negb (snd sc)) l with
+    | [] => None
+    | x :: r => Some (snd (fst (last (x :: r) x)))
+    end.
+
+  Fixpoint chunk_payloads (mk : nat -> cname) (l : list setcookie) (i fuel : nat) : list payload :=
+    match fuel with
+    | O => []
+    | S f => match payload_of (mk i) l with
+             | Some p => p :: chunk_payloads mk l (S i) f
+             | None => []
+             end
+    end.
+
+  Definition emitted_token (base : cname) (mk : nat -> cname) (r : response) : option tval :=
+    match payload_of base (r_cookies r) with
+    | Some p => Some (read_token NCm p (chunk_payloads mk (r_cookies r) 0 (length (r_cookies r))))
+    | None => None
+    end.
+
+  Definition emitted_id (r : response) : option tval := emitted_token CAcc CAccChunk r.
+  Definition emitted_rt (r : response) : option tval := emitted_token CRef CRefChunk r.
+
+  Definition emitted_main (r : response) : option payload := payload_of CMain (r_cookies r).
+
+  (* the response stores a main cookie marked authenticated *)
+  Definition emits_auth (r : response) : bool :=
+    match emitted_main r with Some p => get_bool 1 p | None => false end.
+
+  (* ... that is not merely the carried one written back unchanged *)
+  Definition main_rewritten (now : time) (rq : request) (r : response) : bool :=
+    match emitted_main r with
+    | Some p => negb (payload_eqb p (s_main (carried now rq)))
+    | None => false
+    end.
+
+  (* the response stores an ID token other than the one the request carried *)
+  Definition new_token (now : time) (rq : request) (r : response) : bool :=
+    match emitted_id r with
+    | Some t => negb (tval_eqb t TEmpty) && negb (tval_eqb t (session_token now rq))
+    | None => false
+    end.
+
+  (* the response establishes (or re-establishes) an authenticated session *)
+  Definition establishes (now : time) (rq : request) (r : response) : bool :=
+    emits_auth r && (main_rewritten now rq r || new_token now rq r).
+
+  (* ---------------------------------------------------------------- C01 *)
+
+  Definition client_headers_untouched (rq : request) (r : response) : bool :=
+    match r_fwd r with
+    | Some h => hdrs_eqb h (map (fun c => (1000 + c, HStr 0)) (q_client_ids rq))
+    | None => false
+    end.
+
+  Definition c01_gate (now : time) (rq : request) (ans : option answer) (r : response) : bool :=
+    if is_excluded rq then client_headers_untouched rq r && match r_cookies r with [] => true | _ => false end
+    else if gated rq then
+      if carries_valid_session now rq || refreshed_ok now rq ans r then true
+      else negb (forwarded r) && (is_auth_redirect r || N.leb 400 (r_status r))
+    else negb (forwarded r).
+
+  (* a session is only ever issued at the end of a successful login or refresh,
+     and stores the token that was verified at that moment *)
+  Definition c01_issue (now : time) (rq : request) (ans : option answer) (r : response) : bool :=
+    if establishes now rq r || new_token now rq r then
+      match ans with
+      | Some (AOk id _) =>
+          negb (N.eqb id 0) && accept_at now (tok E id)
+          && match emitted_id r with Some (TTok t) => N.eqb t id | _ => false end
+          && match r_calls r with
+             | [PExchange _ _ _ _] => is_callback rq
+             | [PRefresh _] => refreshed_ok now rq ans r
+             | _ => false
+             end
+      | _ => false
+      end
+    else true.
+
+  Definition c01_step (now : time) (rq : request) (ans : option answer) (r : response) : bool :=
+    c01_gate now rq ans r && c01_issue now rq ans r.
+
+  (* ---------------------------------------------------------------- C03 (per step) *)
+
+  Definition c03_step (now : time) (rq : request) (ans : option answer) (r : response) : bool :=
+    if is_callback rq then
+      let m := s_main (carried now rq) in
+      (if establishes now rq r then
+         negb (N.eqb (q_state rq) 0) && N.eqb (q_state rq) (get_str 3 m)
+         && N.eqb (q_error rq) 0 && negb (N.eqb (q_code rq) 0)
+         && match ans, r_calls r with
+            | Some (AOk id _), [PExchange code _ _ v] =>
+                N.eqb code (q_code rq) && N.eqb v (get_str 5 m)
+                && negb (N.eqb (get_str 4 m) 0) && N.eqb (ti_nonce (tok E id)) (get_str 4 m)
+                && (negb (c_pkce cfg) || true)
+            | _, _ => false
+            end
+         && match emitted_main r with    (* state, nonce and verifier are consumed *)
+            | Some p => N.eqb (get_str 3 p) 0 && N.eqb (get_str 4 p) 0 && N.eqb (get_str 5 p) 0
+            | None => false
+            end
+       else true)
+      (* without a pending login in the cookies the token endpoint is not contacted *)
+      && (if N.eqb (get_str 3 m) 0 then match r_calls r with [] => true | _ => false end else true)
+      (* at most one token-endpoint call, and only with a code *)
+      && match r_calls r with
+         | [] => true
+         | [PExchange _ _ _ _] => negb (N.eqb (q_code rq) 0) && N.eqb (q_error rq) 0
+         | _ => false
+         end
+    else true.
+
+  (* ---------------------------------------------------------------- C06 *)
+
+  Definition domain_ok (email : istr) : bool :=
+    match c_domains cfg with
+    | [] => true
+    | ds => match split_at (bytes_of E email) with
+            | [_; d] => existsb (domain_listed E d) ds
+            | _ => false
+            end
+    end.
+
+  Definition claim_strings (t : tval) : list istr :=
+    match t with
+    | TTok s =>
+        (match ti_groups (tok E s) with ClArr l => strings_of l | _ => [] end)
+        ++ (match ti_roles (tok E s) with ClArr l => strings_of l | _ => [] end)
+    | _ => []
+    end.
+
+  Definition claims_well_typed (t : tval) : bool :=
+    match t with
+    | TTok s => ti_claims (tok E s)
+                && match ti_groups (tok E s) with ClNotArray => false | _ => true end
+                && match ti_roles (tok E s) with ClNotArray => false | _ => true end
+    | _ => false
+    end.
+
+  Definition roles_ok (t : tval) : bool :=
+    match c_roles cfg with
+    | [] => true
+    | rs => claims_well_typed t && existsb (fun x => memk x rs) (claim_strings t)
+    end.
+
+  (* the identity a forwarded request is served under: the refreshed token's when
+     this step refreshed, otherwise the carried session's *)
+  Definition effective_token (now : time) (rq : request) (ans : option answer) (r : response) : tval :=
+    match ans, r_calls r with
+    | Some (AOk id _), [PRefresh _] => TTok id
+    | _, _ => session_token now rq
+    end.
+
+  Definition effective_email (now : time) (rq : request) (ans : option answer) (r : response) : istr :=
+    match ans, r_calls r with
+    | Some (AOk id _), [PRefresh _] => ti_email (tok E id)
+    | _, _ => get_str 6 (s_main (carried now rq))
+    end.
+
+  Definition c06_step (now : time) (rq : request) (ans : option answer) (r : response) : bool :=
+    (if gated rq && forwarded r then
+       let e := effective_email now rq ans r in
+       negb (N.eqb e 0) && domain_ok e && roles_ok (effective_token now rq ans r)
+     else true)
+    && (* a login is accepted only for an allowed e-mail taken from the verified token,
+          and the stored e-mail is that token's *)
+       (if establishes now rq r then
+          match ans, emitted_main r with
+          | Some (AOk id _), Some p =>
+              negb (N.eqb (ti_email (tok E id)) 0)
+              && (negb (is_callback rq) || domain_ok (ti_email (tok E id)))   (* a LOGIN is accepted only for an allowed e-mail;
+                                                                                   after a refresh the decision is the forwarding clause above *)
+              && N.eqb (get_str 6 p) (ti_email (tok E id))
+          | _, _ => false
+          end
+        else true).
+
+  (* ---------------------------------------------------------------- C08 *)
+
+  (* the stored ID token is expired or within the grace period, and a refresh token is stored *)
+  Definition refresh_due (now : time) (rq : request) : bool :=
+    let sd := carried now rq in
+    authenticated now sd
+    && negb (tval_eqb (session_refresh now rq) TEmpty)
+    && match session_token now rq with
+       | TTok t =>
+           let ti := tok E t in
+           ti_static ti && (negb (accept_at now ti) || Z.ltb (ti_exp ti * sec)%Z (now + c_grace cfg)%Z)
+       | _ => false
+       end.
+
+  Definition refresh_answer_good (now : time) (ans : option answer) : bool :=
+    match ans with
+    | Some (AOk id _) => negb (N.eqb id 0) && accept_at now (tok E id) && negb (N.eqb (ti_email (tok E id)) 0)
+    | _ => false
+    end.
+
+  Definition hdr (c : N) (h : list (N * hval)) : option hval := lookup c h.
+
+  Definition c08_step (now : time) (rq : request) (ans : option answer) (r : response) : bool :=
+    if gated rq && refresh_due now rq then
+      (* exactly one refresh grant, with the stored refresh token *)
+      match r_calls r with
+      | [PRefresh rt] => tval_eqb rt (session_refresh now rq)
+      | _ => false
+      end
+      &&
+      (if refresh_answer_good now ans then
+         match ans with
+         | Some (AOk id newrt) =>
+             (* stored: the new ID token, the new refresh token or else the old one, authenticated *)
+             emits_auth r
+             && match emitted_id r with Some (TTok t) => N.eqb t id | _ => false end
+             && match emitted_rt r with
+                | Some t => tval_eqb t (if N.eqb newrt 0 then session_refresh now rq else TTok newrt)
+                | None => false
+                end
+             (* forwarded under the new identity, subject to the allow-lists *)
+             && (if domain_ok (ti_email (tok E id)) && roles_ok (TTok id)
+                 then (match r_fwd r with
+                       | Some h =>
+                           match hdr 1 h, hdr 2 h, hdr 3 h with
+                           | Some (HStr a), Some (HStr b), Some (HStr c) =>
+                               N.eqb a (ti_email (tok E id)) && N.eqb b (ti_email (tok E id)) && N.eqb c id
+                           | _, _, _ => false
+                           end
+                       | None => q_options rq && negb (N.eqb (q_origin rq) 0)   (* answered CORS preflight *)
+                       end)
+                 else negb (forwarded r))
+         | _ => false
+         end
+       else
+         negb (forwarded r) && negb (establishes now rq r)
+         && (if q_json rq then N.eqb (r_status r) 401 else is_auth_redirect r)
+         && match ans with
+            | Some (AErr true) =>      (* a refresh token reported invalid is removed from the session *)
+                match emitted_rt r with Some TEmpty => true | _ => false end
+            | _ => true
+            end)
+    else true.
+
+  (* ---------------------------------------------------------------- C10 *)
+
+  Definition identity_hdr (c : N) : bool :=
+    (N.leb 1 c && N.leb c 5) || existsb (fun n => N.eqb c (100 + n)) (c_templates cfg).
+
+  Definition header_ok (now : time) (rq : request) (ans : option answer) (r : response) (cv : N * hval) : bool :=
+    let '(c, v) := cv in
+    let t := effective_token now rq ans r in
+    let e := effective_email now rq ans r in
+    if N.leb 1000 c then negb (identity_hdr (c - 1000))     (* a client value survived: never under an identity name *)
+    else if N.eqb c 1 || N.eqb c 2 then hval_eqb v (HStr e)
+    else if N.eqb c 3 then match t with TTok s => hval_eqb v (HStr s) | _ => false end
+    else if N.eqb c 4 then
+      match t with
+      | TTok s => match ti_groups (tok E s) with
+                  | ClArr l => claims_well_typed t && hval_eqb v (HList (strings_of l))
+                  | _ => false
+                  end
+      | _ => false
+      end
+    else if N.eqb c 5 then
+      match t with
+      | TTok s => match ti_roles (tok E s) with
+                  | ClArr l => claims_well_typed t && hval_eqb v (HList (strings_of l))
+                  | _ => false
+                  end
+      | _ => false
+      end
+    else if N.leb 100 c && N.ltb c 1000 then
+      match t with
+      | TTok s => match tmpl E (c - 100) s with Some x => hval_eqb v (HStr x) | None => false end
+      | _ => false
+      end
+    else true.
+
+  Definition c10_step (now : time) (rq : request) (ans : option answer) (r : response) : bool :=
+    if gated rq then
+      match r_fwd r with
+      | Some h => forallb (header_ok now rq ans r) h
+      | None => true
+      end
+    else true.
+
+  (* ---------------------------------------------------------------- C11 (per step: the logout response) *)
+
+  Definition expected_post_logout (rq : request) (l : location) : bool :=
+    if c_post_logout_abs cfg
+    then match l with LPostAbs u => N.eqb u (c_post_logout cfg) | _ => false end
+    else match l with
+         | LPostRel s h u => N.eqb s (q_scheme rq) && N.eqb h (q_host rq) && N.eqb u (c_post_logout cfg)
+         | _ => false
+         end.
+
+  Definition all_empty_payloads (r : response) : bool :=
+    forallb (fun sc : setcookie => match snd (fst sc) with [] => true | _ => false end) (r_cookies r).
+
+  Definition covers (r : response) (n : cname) : bool :=
+    existsb (fun sc : setcookie => cname_eqb (fst (fst sc)) n) (r_cookies r).
+
+  Fixpoint covers_chunks (r : response) (mk : nat -> cname) (i n : nat) : bool :=
+    match n with
+    | O => true
+    | S n' => covers r (mk i) && covers_chunks r mk (S i) n'
+    end.
+
+  Definition c11_step (now : time) (rq : request) (r : response) : bool :=
+    if is_logout rq then
+      N.eqb (r_status r) 302
+      && negb (forwarded r)
+      (* every cookie the middleware would read from this browser is replaced by an empty one *)
+      && all_empty_payloads r
+      && covers r CMain && covers r CAcc && covers r CRef
+      && covers_chunks r CAccChunk 0 (s_jar_a (carried now rq))
+      && covers_chunks r CRefChunk 0 (s_jar_r (carried now rq))
+      && match r_loc r with
+         | Some (LEndSession b hint post) =>
+             N.eqb b end_session && negb (N.eqb end_session 0)
+             && tval_eqb hint (session_token now rq) && negb (tval_eqb hint TEmpty)
+             && expected_post_logout rq post
+         | Some l =>
+             expected_post_logout rq l
+             && (N.eqb end_session 0 || tval_eqb (session_token now rq) TEmpty)
+         | None => false
+         end
+    else true.
+
+  (* ---------------------------------------------------------------- C15 *)
+
+  Definition c15_step (rq : request) (r : response) : bool :=
+    if N.leb 300 (r_status r) && N.ltb (r_status r) 400 then
+      match r_loc r with
+      | Some (LAuth b _ _ _ _ _) => N.eqb b auth_url && negb (N.eqb auth_url 0)
+      | Some (LEndSession b _ post) => N.eqb b end_session && negb (N.eqb end_session 0) && expected_post_logout rq post
+      | Some (LPostAbs u) => expected_post_logout rq (LPostAbs u)
+      | Some (LPostRel s h u) => expected_post_logout rq (LPostRel s h u)
+      | Some (LPath p) => same_origin_path (bytes_of E p)
+      | None => false
+      end
+    else match r_loc r with None => true | Some _ => false end.
+
+  (* ---------------------------------------------------------------- C16, C18, C09 (response-level flags) and C17 *)
+
+  Definition no_flag (f : N) (r : response) : bool := negb (memk f (r_flags r)).
+
+  Definition c16_step (r : response) : bool :=
+    no_flag 1 r &&
+    match r_body r with
+    | BHtml _ | BJson _ => N.leb 400 (r_status r)
+    | _ => true
+    end.
+
+  Definition c18_step (r : response) : bool := no_flag 2 r && no_flag 3 r.
+  Definition c09_step (r : response) : bool := no_flag 4 r.
+
+  (* 5xx is tolerated only on the callback when the PROVIDER interaction failed:
+     the code exchange was refused, or the returned ID token is unacceptable *)
+  Definition provider_failure (now : time) (rq : request) (ans : option answer) (r : response) : bool :=
+    is_callback rq &&
+    match r_calls r, ans with
+    | [PExchange _ _ _ _], Some (AOk id _) =>
+        let ti := tok E id in
+        N.eqb id 0 || negb (accept_at now ti) || N.eqb (ti_nonce ti) 0 || N.eqb (ti_email ti) 0
+        || negb (N.eqb (ti_nonce ti) (get_str 4 (s_main (carried now rq))))
+    | [PExchange _ _ _ _], _ => true
+    | _, _ => false
+    end.
+
+  Definition unusable (n : cname) (rq : request) : bool :=
+    match jar_get n (q_jar rq) with
+    | Some c => match decode (c_key cfg) n c with Some _ => false | None => true end
+    | None => false
+    end.
+
+  Definition c17_step (now : time) (rq : request) (ans : option answer) (r : response) : bool :=
+    no_flag 5 r && negb (N.eqb (r_status r) 999)
+    && (N.ltb (r_status r) 500 || provider_failure now rq ans r)
+    && (* an unusable main cookie on a gated path: login redirect whose cookies replace every unusable cookie *)
+       (if gated rq && unusable CMain rq && negb (refreshed_ok now rq ans r) && negb (q_json rq && forwarded r)
+        then (is_auth_redirect r || (q_json rq && N.eqb (r_status r) 401))
+             && (if is_auth_redirect r then covers r CMain && covers r CAcc && covers r CRef else true)
+        else true).
+
+End Monitors.
+
+(* ------------------------------------------------------------------ applying the step monitors to a case *)
+
+Definition inst_urls (c : wcase) (i : N) : istr * istr :=
+  match lookup i (wc_insts c) with Some d => snd d | None => (0, 0) end.
+
+Definition steps_all (c : wcase)
+           (p : env -> config -> istr -> istr -> wstep -> bool) : bool :=
+  forallb (fun s => let '(a, e) := inst_urls c (w_inst s) in p (env_of c) (wc_cfg c) a e s) (wc_steps c).
+
+Definition st_c01 E cfg a (e : istr) (s : wstep) := c01_step E cfg a (w_now s) (w_rq s) (w_ans s) (w_obs s).
+Definition st_c03 E cfg (a e : istr) (s : wstep) := c03_step E cfg (w_now s) (w_rq s) (w_ans s) (w_obs s).
+Definition st_c06 E cfg (a e : istr) (s : wstep) := c06_step E cfg (w_now s) (w_rq s) (w_ans s) (w_obs s).
+Definition st_c08 E cfg a (e : istr) (s : wstep) := c08_step E cfg a (w_now s) (w_rq s) (w_ans s) (w_obs s).
+Definition st_c10 E cfg (a e : istr) (s : wstep) := c10_step E cfg (w_now s) (w_rq s) (w_ans s) (w_obs s).
+Definition st_c11 E cfg (a : istr) e (s : wstep) := c11_step E cfg e (w_now s) (w_rq s) (w_obs s).
+Definition st_c15 E cfg a e (s : wstep) := c15_step E cfg a e (w_rq s) (w_obs s).
+Definition st_c16 (E : env) (cfg : config) (a e : istr) (s : wstep) := c16_step (w_obs s).
+Definition st_c18 (E : env) (cfg : config) (a e : istr) (s : wstep) := c18_step (w_obs s).
+Definition st_c09 (E : env) (cfg : config) (a e : istr) (s : wstep) := c09_step (w_obs s).
+Definition st_c17 E cfg a (e : istr) (s : wstep) := c17_step E cfg a (w_now s) (w_rq s) (w_ans s) (w_obs s).
+
+(* ------------------------------------------------------------------ history monitors *)
+
+(* steps of one browser, in order *)
+Definition of_browser (b : N) (l : list wstep) : list wstep := filter (fun s => N.eqb (w_browser s) b) l.
+
+Definition browsers_of (l : list wstep) : list N := nodup N.eq_dec (map w_browser l).
+
+Definition auth_state (s : wstep) : option (istr * istr * istr) :=
+  match r_loc (w_obs s) with
+  | Some (LAuth _ st nonce ch _ _) => Some (st, nonce, ch)
+  | _ => None
+  end.
+
+(* C03 over one honest browser: a callback that establishes a session uses the
+   state, nonce and verifier of that browser's MOST RECENT initiation; after it,
+   the same callback creates no session and contacts no token endpoint *)
+Fixpoint c03_browser (E : env) (cfg : config) (last : option (istr * istr * istr))
+         (done : list istr) (l : list wstep) : bool :=
+  match l with
+  | [] => true
+  | s :: r =>
+      match auth_state s with
+      | Some a => c03_browser E cfg (Some a) done r
+      | None =>
+          if N.eqb (q_path (w_rq s)) (c_callback cfg) then
+            let est := establishes E cfg (w_now s) (w_rq s) (w_obs s) in
+            (if est then
+               match last, w_ans s, r_calls (w_obs s) with
+               | Some (st, nonce, ch), Some (AOk id _), [PExchange _ _ _ v] =>
+                   N.eqb (q_state (w_rq s)) st && N.eqb (ti_nonce (tok E id)) nonce
+                   && (if c_pkce cfg then N.eqb v ch && negb (N.eqb v 0) else true)
+               | _, _, _ => false
+               end
+             else true)
+            (* a callback repeated after a successful one: nothing happens *)
+            && (if memk (q_state (w_rq s)) done
+                then negb est && match r_calls (w_obs s) with [] => true | _ => false end
+                else true)
+            && c03_browser E cfg (if est then None else last)
+                           (if est then q_state (w_rq s) :: done else done) r
+          else c03_browser E cfg last done r
+      end
+  end.
+
+Fixpoint pairwise_distinct (l : list istr) : bool :=
+  match l with
+  | [] => true
+  | x :: r => (N.eqb x 0 || negb (memk x r)) && pairwise_distinct r
+  end.
+
+Definition fresh_values (l : list wstep) : bool :=
+  let a := flat_map (fun s => match auth_state s with Some (x, y, z) => [x; y; z] | None => [] end) l in
+  pairwise_distinct a
+  && forallb (fun s => match auth_state s with Some (x, y, _) => negb (N.eqb x 0) && negb (N.eqb y 0) | None => true end) l.
+
+Definition c03_history (c : wcase) : bool :=
+  let E := env_of c in
+  steps_all c st_c03
+  && forallb (fun b => c03_browser E (wc_cfg c) None [] (of_browser b (wc_steps c))) (browsers_of (wc_steps c))
+  && fresh_values (wc_steps c).
+
+(* C04 over one honest browser: once a login (or refresh) stored token t, every
+   gated request made while t is more than the grace period from expiry is
+   forwarded with no provider call, whichever instance serves it *)
+Definition stored_by (E : env) (cfg : config) (s : wstep) : option istr :=
+  if establishes E cfg (w_now s) (w_rq s) (w_obs s)
+  then match emitted_id E (w_obs s) with Some (TTok t) => Some t | _ => None end
+  else None.
+
+Definition comfortably_valid (E : env) (cfg : config) (now : time) (t : istr) : bool :=
+  let ti := tok E t in
+  accept_at now ti && negb (Z.ltb (ti_exp ti * sec)%Z (now + c_grace cfg + 2 * sec)%Z).
+
+Fixpoint c04_browser (E : env) (cfg : config) (cur : option istr) (l : list wstep) : bool :=
+  match l with
+  | [] => true
+  | s :: r =>
+      let rq := w_rq s in
+      let o := w_obs s in
+      let here :=
+        match cur with
+        | Some t =>
+            if gated E cfg rq && comfortably_valid E cfg (w_now s) t
+               && domain_ok E cfg (ti_email (tok E t)) && roles_ok E cfg (TTok t)
+            then (forwarded o || (q_options rq && negb (N.eqb (q_origin rq) 0) && N.eqb (r_status o) 200))
+                 && match r_calls o with [] => true | _ => false end
+            else true
+        | None => true
+        end in
+      let cur' :=
+        if is_logout cfg rq then None
+        else match stored_by E cfg s with Some t => Some t | None => cur end in
+      here && c04_browser E cfg cur' r
+  end.
+
+Definition c04_history (c : wcase) : bool :=
+  forallb (fun b => c04_browser (env_of c) (wc_cfg c) None (of_browser b (wc_steps c))) (browsers_of (wc_steps c)).
+
+(* C11 over one honest browser: after a logout nothing is treated as
+   authenticated until a login completes *)
+Fixpoint c11_browser (E : env) (cfg : config) (out : bool) (l : list wstep) : bool :=
+  match l with
+  | [] => true
+  | s :: r =>
+      let rq := w_rq s in
+      let o := w_obs s in
+      let here :=
+        if out && gated E cfg rq
+        then negb (forwarded o)
+             && forallb (fun c => match c with PRefresh _ => false | _ => true end) (r_calls o)
+        else true in
+      let out' := if is_logout cfg rq then true
+                  else if establishes E cfg (w_now s) rq o then false else out in
+      here && c11_browser E cfg out' r
+  end.
+
+Definition c11_history (c : wcase) : bool :=
+  steps_all c st_c11
+  && forallb (fun b => c11_browser (env_of c) (wc_cfg c) false (of_browser b (wc_steps c))) (browsers_of (wc_steps c)).
+
+(* C07 as seen end to end: what the next request reads back (the token handed
+   downstream, the refresh token sent to the provider) is what was last stored *)
+Fixpoint c07_browser (E : env) (cfg : config) (id rt : option tval) (l : list wstep) : bool :=
+  match l with
+  | [] => true
+  | s :: r =>
+      let rq := w_rq s in
+      let o := w_obs s in
+      let sd := carried cfg (w_now s) rq in
+      let here :=
+        (match id with Some t => tval_eqb (get_access (nchunks E) sd) t | None => true end)
+        && (match rt with Some t => tval_eqb (get_refresh (nchunks E) sd) t | None => true end) in
+      let id' := match emitted_id E o with Some t => Some t | None => id end in
+      let rt' := match emitted_rt E o with Some t => Some t | None => rt end in
+      here && c07_browser E cfg id' rt' r
+  end.
+
+Definition c07_history (c : wcase) : bool :=
+  forallb (fun b => c07_browser (env_of c) (wc_cfg c) None None (of_browser b (wc_steps c))) (browsers_of (wc_steps c)).
+
+(* ------------------------------------------------------------------ violation predicates (negated monitors) *)
+
+Definition violates_c01 (c : wcase) : bool := negb (steps_all c st_c01).
+Definition violates_c03 (c : wcase) : bool := negb (c03_history c).
+Definition violates_c04 (c : wcase) : bool := negb (c04_history c).
+Definition violates_c06 (c : wcase) : bool := negb (steps_all c st_c06).
+Definition violates_c07 (c : wcase) : bool := negb (c07_history c).
+Definition violates_c08 (c : wcase) : bool := negb (steps_all c st_c08).
+Definition violates_c09 (c : wcase) : bool := negb (steps_all c st_c09).
+Definition violates_c10 (c : wcase) : bool := negb (steps_all c st_c10).
+Definition violates_c11 (c : wcase) : bool := negb (c11_history c).
+Definition violates_c15 (c : wcase) : bool := negb (steps_all c st_c15).
+Definition violates_c16 (c : wcase) : bool := negb (steps_all c st_c16).
+Definition violates_c17 (c : wcase) : bool := negb (steps_all c st_c17).
+Definition violates_c18 (c : wcase) : bool := negb (steps_all c st_c18).
